@@ -10,7 +10,13 @@ def gen_cases(run, which):
     g = evgen.Gen(rng)
     n = 6000 if run.tier == 'quick' else 150000
     cases = common.corpus('C07') + common.corpus('C08')
-    cases += [g.event() for _ in range(n)]
+    for _ in range(n):
+        ev = g.event()
+        cases.append(ev)
+        if rng.random() < 0.06:     # histories: the next event happens at the same instant (same Unix second, or the adjacent one) in another zone
+            at = g.same_instant_elsewhere(ev)
+            if at:
+                cases.append(g.event(at=at))
     cases += [g.deep_event(d) for d in (1, 2, 3, 4, 5, 17, 64, 100, 120, 126, 127, 128, 129, 130, 200, 255, 256, 257, 300, 1000)]   # across the wrap points of any 8-bit depth counter
     # widths sweep for the file:line clause
     for W in range(-5, 201, 1 if run.tier == 'thorough' else 7):
